@@ -106,6 +106,8 @@ LAYOUTS = {
     'SWaa': [['S', 'A', {}, None], ['W', 'A', {}, [[0, 1, 0]]]],          # numbers restart on a second segment of chain A
     'SS': [['S', 'A', {}, None], ['S', 'B', {}, [[0, 0, 1]]]],            # identical copies
     'Ss': [['S', 'A', {}, None], ['S', 'B', {}, [[0, 0, 1], 1.08]]],      # the copy is stretched by 8 % along z
+    'WW': [['W', 'A', {}, None], ['W', 'B', {}, [[0, 0, 1]]]],            # identical copies without a bridge
+    'Ww': [['W', 'A', {}, None], ['W', 'B', {}, [[0, 0, 1], 1.08]]],      # same topology before the network, other conformation
     'WsW': [['W', 'A', {}, None], ['S', 'B', {'first': 11}, [[1, 0, 0]]], ['W', 'C', {}, [[0, 1, 0]]]],
     'IJW': [['I', 'A', {}, None], ['J', 'B', {}, None], ['W', 'C', {'first': 5}, [[1, 0, 0]]]],
     'g': [['g', 'R', {}, None]],                                           # 6LFO_gap, residues 36-141: three segments
@@ -621,6 +623,8 @@ def make_opts(rng, lay, fixed=None):
     o['resid'] = rng.choice(['mol', 'mol', 'input'])
     o['ss'] = secondary(rng, len(residues)) if o['ff'] != 'martini3001' or rng.random() < 0.3 else 'C' * len(residues)
     o.update(fixed or {})
+    if o['ss'] == 'C':                                   # pinned: every residue a coil (copies of a chain then share their topology)
+        o['ss'] = 'C' * len(residues)
     if o['unit'] != 'regions':
         o['regions'] = []
     return o
@@ -644,8 +648,10 @@ QUICK_PLAN = [
                            'em': 0.0, 'ea': 0.0, 'eu': 1.1, 'ermd': 2}, None, None),
     ('cli-merge', 'IJW', {'ff': 'martini3001', 'flag': True, 'unit': 'chain', 'merge': [['A', 'C']], 'mergeall': False, 'eb': None, 'em': 0.0,
                           'ea': 0.0, 'eu': 1.1}, None, None),
-    ('cli-copies', 'SS', {'flag': True, 'unit': 'molecule', 'merge': [], 'mergeall': False, 'em': 0.0}, None, None),
-    ('cli-copies', 'Ss', {'flag': True, 'unit': 'molecule', 'merge': [], 'mergeall': False, 'em': 0.0}, None, None),
+    ('cli-copies', 'WW', {'flag': True, 'unit': 'molecule', 'merge': [], 'mergeall': False, 'em': 0.0, 'ss': 'C'}, None, None),
+    # the same chain twice in two conformations: one molecule type before the network is built, two networks (D18); martini22 has no
+    # geometry-derived parameters of its own (martini3001 writes measured SC-BB-BB-SC dihedrals)
+    ('cli-copies', 'Ww', {'ff': 'martini22', 'flag': True, 'unit': 'molecule', 'merge': [], 'mergeall': False, 'em': 0.0, 'eb': None, 'eu': 0.9, 'ss': 'C'}, None, None),
     ('cli-ff', 'W', {'ff': 'elnedyn22', 'flag': False, 'unit': 'molecule', 'em': 0.0, 'eb': None}, None, None),
     ('cli-ff', 'IJ7', {'ff': 'martini22', 'flag': True, 'unit': 'molecule', 'em': 0.0, 'ea': 0.0, 'eb': None, 'merge': [], 'mergeall': False},
      None, None),
@@ -669,8 +675,8 @@ def plan(tier, seed):
     rng = random.Random(seed * 7919 + 15)
     todo = list(QUICK_PLAN)
     if tier != 'quick':
-        lays = ['S', 'W', 'H', 'S5', 'Si', 'IJ', 'IJ7', 'SW', 'SWaa', 'SS', 'Ss', 'WsW', 'IJW', 'g']
-        for k in range(230):
+        lays = ['S', 'W', 'H', 'S5', 'Si', 'IJ', 'IJ7', 'SW', 'SWaa', 'SS', 'Ss', 'WW', 'Ww', 'WsW', 'IJW', 'g']
+        for k in range(168):
             todo.append(('cli-random', lays[k % len(lays)], {}, None, None))
         for k in range(24):
             todo.append(('cli-thr', ['IJ', 'S', 'SW', 'H', 'IJW', 'Si'][k % 6], {'flag': True, 'em': 0.0} if k % 2 else
@@ -772,9 +778,7 @@ def run_job(job):
             out['info'].append(info)
         if sc.get('thr') and ev is not None and not why and ev['rc'] == 0:
             opts2, aim = sharpen(sc, ev, random.Random(sc['pick']))
-            if opts2 is None:
-                out['problems'].append('no pair to place the threshold on (%s)' % sc['thr'])
-            else:
+            if opts2 is not None:       # (no written pair to aim at: the first run stands alone)
                 ev2, info2, why2 = one_run(sc, opts2, work, 'b')
                 if why2:
                     out['problems'].append(why2)
